@@ -24,6 +24,9 @@ CL = [
  ("bigquery","options","OPTIONS (description='d', labels=[('a','b')])"), ("bigquery","partition_by","PARTITION BY DATE(a)"), ("bigquery","cluster_by_bq","CLUSTER BY a"),
  ("postgres","inherits","INHERITS (base1)"), ("postgres","partition_by_pg","PARTITION BY RANGE (a)"),
  ("spark_sql","using","USING parquet"),
+ ("ibm_db2","organize_by_column","ORGANIZE BY COLUMN"), ("postgres","inherits_q","INHERITS (s2.base2)"), ("redshift","diststyle_all","DISTSTYLE ALL"), ("redshift","diststyle_even","DISTSTYLE EVEN"),
+ ("hql","stored_as_textfile","STORED AS TEXTFILE"), ("mysql","engine_myisam","ENGINE=MyISAM"), ("mysql","charset_latin1","DEFAULT CHARSET=latin1"), ("oracle","tablespace_mixed","TABLESPACE Users_Data"),
+ ("hql","location_hdfs","LOCATION 'hdfs://nn:8020/warehouse/t1'"), ("snowflake","cluster_by_b","CLUSTER BY (b)"),
  ("ibm_db2","in","IN ts1"), ("ibm_db2","index_in","INDEX IN ts2"), ("ibm_db2","organize_by","ORGANIZE BY ROW"),
 ]
 base = {}
